@@ -442,6 +442,29 @@ func c12Witnesses(g *c12Genr) {
 	g.add("wit", 1, merges, c12OpDel(0, 1), c12OpPrune(), c12OpDel(3, 6), c12OpPrune(), c12OpPrune())
 	g.add("wit", 2, merges, c12OpDel(0, 1), c12OpPrune(), c12OpDel(3, 6), c12OpDel(2, 1), c12OpPrune(), c12OpPrune())
 
+	// (k) every name shape of every ref kind (flat and multi-component; transactions with and without a row in
+	// the ref store) as the ONLY ref that keeps a commit, its parent, their tables and blocks alive, next to an
+	// orphan; then the ref is dropped
+	for kind := uint64(0); kind < 4; kind++ {
+		for num := uint64(0); num < 12; num++ {
+			only := c12StoreAll(&c12State{tables: []c12Table{c12Tbl(1, S0, S2), c12Tbl(2, S2, S4), c12Tbl(3, S6)},
+				commits: []c12Commit{c12Com(1, 1), c12Com(2, 2, 1), c12Com(3, 3)}, refs: []c12Ref{{kind, num, 2}}})
+			g.add("refnames", 0, only, c12OpPrune(), c12OpPrune(), c12OpDel(kind, num), c12OpPrune(), c12OpPrune())
+			g.ctx.Count(fmt.Sprintf("gen_refname_kind%d_shape%d", kind, num%4))
+		}
+	}
+	for _, num := range []uint64{1, 2, 3, 9, 10} {
+		only := c12StoreAll(&c12State{tables: []c12Table{c12Tbl(1, S0, S2), c12Tbl(2, S2, S4), c12Tbl(3, S6)},
+			commits: []c12Commit{c12Com(1, 1), c12Com(2, 2, 1), c12Com(3, 3)}, refs: []c12Ref{{3, num, 2}}})
+		g.add("refnames", 1, only, c12OpPrune(), c12OpDel(3, num), c12OpPrune())
+		g.add("refnames", 2, only, c12OpPrune(), c12OpDel(3, num), c12OpPrune())
+	}
+	for _, kn := range [][2]uint64{{0, 1}, {0, 2}, {1, 2}, {2, 1}, {2, 2}, {2, 3}} {
+		only := c12StoreAll(&c12State{tables: []c12Table{c12Tbl(1, S0, S2), c12Tbl(2, S2, S4), c12Tbl(3, S6)},
+			commits: []c12Commit{c12Com(1, 1), c12Com(2, 2, 1), c12Com(3, 3)}, refs: []c12Ref{{kn[0], kn[1], 2}}})
+		g.add("refnames", 1, only, c12OpPrune(), c12OpDel(kn[0], kn[1]), c12OpPrune())
+	}
+
 	// (j) odds and ends: duplicate bindings (first wins), tables without index/profile, leftovers,
 	// tables naming blocks that are not stored, repeated block ids, empty table
 	odd := &c12State{
@@ -743,7 +766,7 @@ func c12RandState(g *c12Genr, small bool, ingestFlavor bool) *c12State {
 	}
 	seen := map[[2]uint64]bool{}
 	for i := 0; i < nR; i++ {
-		r := c12Ref{kind: uint64(ctx.Pick(4)), num: uint64(ctx.Pick(12))}
+		r := c12Ref{kind: uint64(ctx.Pick(4)), num: uint64(ctx.Pick(16))}
 		if seen[[2]uint64{r.kind, r.num}] {
 			continue
 		}
@@ -790,7 +813,7 @@ func c12RandOps(g *c12Genr, st *c12State, crashOK bool) []*xt.T {
 			ops = append(ops, c12OpDel(refs[j].kind, refs[j].num))
 			refs = append(refs[:j], refs[j+1:]...)
 		case r < 75:
-			nr := c12Ref{kind: uint64(ctx.Pick(4)), num: uint64(ctx.Pick(12)), commit: uint64(1 + ctx.Pick(nC))}
+			nr := c12Ref{kind: uint64(ctx.Pick(4)), num: uint64(ctx.Pick(16)), commit: uint64(1 + ctx.Pick(nC))}
 			ops = append(ops, c12OpSet(nr.kind, nr.num, nr.commit))
 			refs = append(refs, nr)
 		default:
